@@ -6,7 +6,7 @@ CFGS = {
     "quick": ["Markov_addmul", "Markov_logaddexp", "Markov_maxadd"],
     "thorough": ["Markov_addmul", "Markov_logaddexp", "Markov_maxadd", "Markov_minadd", "Markov_maxmul"],
 }
-LAGS = {"quick": ["MarkovLag_addmul"], "thorough": ["MarkovLag_addmul", "MarkovLag_logaddexp"]}
+LAGS = {"quick": ["MarkovLag_quick"], "thorough": ["MarkovLag_addmul", "MarkovLag_logaddexp"]}
 
 
 def run(tier):
